@@ -228,6 +228,9 @@ class DunderMixin:
     def __rand__(self, other: Any) -> Any:
         return self._get_method("__rand__")(other)
 
+    def __rdivmod__(self, other: Any) -> Any:
+        return self._get_method("__rdivmod__")(other)
+
     @binary_operation
     def __rfloordiv__(self, other: Any) -> Any:
         return self._get_method("__rfloordiv__")(other)
@@ -247,6 +250,9 @@ class DunderMixin:
     @binary_operation
     def __ror__(self, other: Any) -> Any:
         return self._get_method("__ror__")(other)
+
+    def __round__(self) -> Any:
+        return self._get_method("__round__")()
 
     @binary_operation
     def __rpow__(self, other: Any) -> Any:
